@@ -58,7 +58,7 @@ func (e *zzEnv) zzCheckC02(tag string, W []string, id int, ack bool, kind string
 	}
 	// liveness half of the claim: a failing minority does not surface as an error
 	// when at least one RW replica survives
-	if kind == "W" && len(W) > 0 && 2*ok > len(W) && !e.c.ReadOnly {
+	if len(W) > 0 && 2*ok > len(W) && !e.c.ReadOnly {
 		rwLeft := 0
 		for _, r := range e.c.replicas {
 			if r.Mode == types.RW {
